@@ -36,11 +36,22 @@ instance, the block-condition set), modulo only (i) identity of immutable frozen
 dataclass instances other than TRUE/FALSE and (ii) iteration order of
 (frozen)sets.  The operations are functions of exactly these contents (they
 compare with ==, `in` and `is TRUE/FALSE`), hence equal keys => equal future
-behaviour.  Stored states are never mutated: store_local (the one mutating
-operation) is applied to a shallow attribute copy made by the harness, and every
-level ends with an integrity pass that recomputes the key of every stored state.
-States never cross a process boundary (pickling would duplicate TRUE/FALSE);
-workers inherit them through fork and return only counters and recipes.
+behaviour.  Stored states are never mutated by the harness: store_local (the one
+mutating operation) is applied to a shallow attribute copy; after every other
+operation the operands' fingerprints are compared with the stored ones (an
+operation that changes its operand is reported and stops the search), and every
+level ends with an integrity pass that recomputes the full key of every state.
+States never cross a process boundary (pickling would duplicate TRUE/FALSE):
+workers receive *recipes* (the history of public operations that produced a
+state), replay them with the public operations only, and verify that the result
+has the key hash and denotation the parent recorded.
+
+Levels.  S_0 = the constructed states; S_{k+1} = S_k + every unary operation on
+a state of S_k + a.merge_into(b) for every ordered pair of S_k.  quick: S_2
+complete, then every operation (incl. every ordered pair) on S_2 once more,
+checked but not stored.  thorough: S_3 complete, then on every state of S_3 every
+unary operation and merge_into with every state of S_1 in both orders (depth 4
+proper would need |S_3|^2 = 3.3e10 merges).
 """
 
 import itertools
@@ -151,10 +162,6 @@ def build(term):
   if op == "or":
     return m.c.Or(*args)
   raise ValueError(term)
-
-
-def tsize(term):
-  return 1 if isinstance(term, str) else 1 + sum(tsize(t) for t in term[1:])
 
 
 def tstr(term):
@@ -643,6 +650,7 @@ class Space:
     self.out = {}
     self.levels = []
     self.corrupt = False
+    self.nonblock = 0
 
   def count(self, name, n=1):
     self.out[name] = self.out.get(name, 0) + n
@@ -659,6 +667,8 @@ class Space:
     r.D, r.C = got
     r.loc = dict(obj.get_locals())
     r.fp = fp(obj)
+    if set(r.loc) - obj._locals_with_block_condition:
+      self.nonblock += 1
     self.index[k] = len(self.recs)
     self.recs.append(r)
     return r
@@ -757,18 +767,64 @@ def seed_space(sp):
     if err:
       sp.bad(recipe, err)
       continue
+    if set(vars(obj)) != set(_ATTRS):
+      raise RuntimeError("BlockState has attributes %s; the canonical key covers %s" % (sorted(vars(obj)), _ATTRS))
     sp.register(obj, got, recipe, 0)
   sp.levels.append(len(sp.recs))
 
 
-# frontier: one more merge (and unary operation) on every state of the last level, results checked
-# but not stored.
+# frontier: one more operation on every state of the last level, results checked but not stored.
+#
+# The worker pool is forked *before* the state space is built (page faults on a large copy-on-write heap are
+# very slow in this sandbox), so a worker never sees the parent's live objects: it receives recipes and
+# rebuilds each state with the public operations only, then verifies that the rebuilt object has the same
+# canonical key (hash) and denotation as the parent's.  That is also an independent cross-check of the
+# attribute-copy shortcut used for store_local in the parent.
+
+
+def rebuild(recipe):
+  """Replay a recipe with the public operations only (no checks)."""
+  k = recipe[0]
+  if k == "init":
+    return make_init(recipe)
+  if k == "store":
+    s = rebuild(recipe[1])
+    s.store_local(recipe[2], mods().v.Variable.from_value(recipe[3]))
+    return s
+  if k == "cond":
+    return rebuild(recipe[1]).with_condition(_cond_obj(recipe[2]))
+  if recipe[2] is None:
+    return rebuild(recipe[1]).merge_into(None)
+  return rebuild(recipe[1]).merge_into(rebuild(recipe[2]))
+
+
+def ship(r):
+  return (r.recipe, r.D, r.C, hash(r.key))
+
+
+def unship(t):
+  recipe, D, C, hk = t
+  r = Rec()
+  r.obj = rebuild(recipe)
+  r.recipe, r.D, r.C = recipe, D, C
+  r.key = None
+  if hash(skey(r.obj)) != hk or den(r.obj) != (D, C):
+    raise RuntimeError("replaying %s in a worker did not give the state the parent holds" % rstr(recipe))
+  r.loc = dict(r.obj.get_locals())
+  r.fp = fp(r.obj)
+  return r
+
+
+_WCACHE = {}
 
 
 def _frontier_work(chunk):
-  sp = _G["space"]
-  lo, hi, partners, unary, lo0 = chunk
-  recs = sp.recs
+  mine, partners, nold_partners, unary, cmenu = chunk
+  pk = hash(partners)
+  if _WCACHE.get("pk") != pk:
+    _WCACHE["pk"] = pk
+    _WCACHE["recs"] = [unship(t) for t in partners]
+  precs = _WCACHE["recs"]
   stats = {"trans": 0, "nontrivial": 0}
   out = {}
   viol = []
@@ -790,21 +846,20 @@ def _frontier_work(chunk):
     elif any(0 < x < FULL for x in got[0]):
       stats["nontrivial"] += 1
 
-  for i in range(lo, hi):
-    a = recs[i]
+  for t in mine:
+    a = unship(t)
     ia = (a.obj, (a.D, a.C))
     if unary:
       for n in NAMES:
         for v in VALUES:
           one(("store", a.recipe, n, v), [(clone(a.obj), (a.D, a.C))], "store_local")
-      for ct in sp.cmenu:
+      for ct in cmenu:
         one(("cond", a.recipe, ct), [ia], "with_condition", (a,))
       one(("merge", a.recipe, None), [ia], "merge_into(None)", (a,))
-    for j in range(partners):
-      b = recs[j]
+    for j, b in enumerate(precs):
       ib = (b.obj, (b.D, b.C))
       one(("merge", a.recipe, b.recipe), [ia, ib], merge_kind(a, b), (a, b))
-      if j < lo0:   # (b, a) with b in the frontier range is visited from b's side
+      if j < nold_partners:   # (b, a) with b itself in the frontier range is visited from b's side
         one(("merge", b.recipe, a.recipe), [ib, ia], merge_kind(b, a), (a, b))
   return stats, out, viol
 
@@ -827,37 +882,45 @@ def part2(rep, tier, seed, cmenu):
     b["depth"] = int(os.environ["VERIF_C18_DEPTH"])
   import time
   t_start = time.time()
-  sp = Space(cmenu)
-  seed_space(sp)
-  nold = 0
-  for d in range(1, b["depth"] + 1):
-    if sp.viol:
-      break
-    nold = sp.level(d, nold)
-  states = len(sp.recs)
-  _G["t_levels"] = round(time.time() - t_start, 1)
-  _dbg("levels done")
-  t_start = time.time()
-  extra = {"trans": 0, "nontrivial": 0}
-  fr = None
-  if not sp.viol and (b["pairs_once_more"] or b["frontier_partners_depth"] is not None):
-    if b["pairs_once_more"]:
-      # every ordered pair with at least one state of the last level, merged once more (not stored)
-      lo0, partners, unary = nold, states, True
-    else:
-      lo0, unary = nold, True
-      partners = sp.levels[b["frontier_partners_depth"]]
-    _G["space"] = sp
-    step_ = max(1, min(400, (states - lo0) // (vrun.NPROC * 6) or 1))
-    chunks = [(lo, min(lo + step_, states), partners, unary, lo0) for lo in range(lo0, states, step_)]
-    for _, (st, out, vv) in vrun.pmap(_frontier_work, chunks, seed=seed, chunksize=1):
-      for k, n in st.items():
-        extra[k] = extra.get(k, 0) + n
-      for k, n in out.items():
-        sp.count(k, n)
-      sp.viol.extend(vv)
-    fr = {"from_states": states - lo0, "partners": partners, "both_orders": True, "unary_ops": unary,
-          "transitions": extra["trans"]}
+  want_frontier = b["pairs_once_more"] or b["frontier_partners_depth"] is not None
+  pool = vrun.Pool(_frontier_work) if want_frontier else None   # forked now, while the heap is small
+  try:
+    sp = Space(cmenu)
+    seed_space(sp)
+    nold = 0
+    for d in range(1, b["depth"] + 1):
+      if sp.viol:
+        break
+      nold = sp.level(d, nold)
+    states = len(sp.recs)
+    _G["t_levels"] = round(time.time() - t_start, 1)
+    _dbg("levels done")
+    t_start = time.time()
+    extra = {"trans": 0, "nontrivial": 0}
+    fr = None
+    if not sp.viol and want_frontier:
+      lo0 = nold
+      if b["pairs_once_more"]:
+        # every ordered pair with at least one state of the last level, merged once more (not stored)
+        npart = states
+      else:
+        npart = sp.levels[b["frontier_partners_depth"]]
+      partners = tuple(ship(r) for r in sp.recs[:npart])
+      step_ = max(1, min(400, (states - lo0) // (vrun.NPROC * 6) or 1))
+      chunks = [(tuple(ship(r) for r in sp.recs[lo:lo + step_]), partners, min(lo0, npart), True, cmenu)
+                for lo in range(lo0, states, step_)]
+      for _, (st, out, vv) in pool.map(chunks, seed=seed, chunksize=1):
+        for k, n in st.items():
+          extra[k] = extra.get(k, 0) + n
+        for k, n in out.items():
+          sp.count(k, n)
+        sp.viol.extend(vv)
+      del chunks
+      fr = {"from_states": states - lo0, "partners": npart, "both_orders": True, "unary_ops": True,
+            "states_rebuilt_from_recipe_in_workers": True, "transitions": extra["trans"]}
+  finally:
+    if pool is not None:
+      pool.close()
   _G["t_frontier"] = round(time.time() - t_start, 1)
   _dbg("frontier done")
   sp.viol.sort(key=lambda x: (x[0], repr(x[1])))
@@ -878,9 +941,13 @@ def part2(rep, tier, seed, cmenu):
   for k, n in sorted(sp.out.items()):
     rep.outcome(k, n)
   _dbg("outcomes done")
-  nonblock = sum(1 for r in sp.recs if set(r.obj.get_locals()) - r.obj._locals_with_block_condition)
+  nonblock = sp.nonblock
   rep.outcome("states-with-explicitly-conditioned-locals", nonblock)
   _dbg("nonblock done")
+  rep.cov["bounds"] = ("tier=%s: condition terms to depth 3 over {a,b,c,TRUE,FALSE}, 8 assignments; block states over "
+                       "names {x,y}, values {1,2}, %d initial states, %d with_condition operands (depth-1 terms), "
+                       "levels S_0..S_%d complete, one further operation on the last level (see part2.frontier)"
+                       % (tier, len(INITS), len(cmenu), len(sp.levels) - 1))
   rep.cov.update({
       "states": states, "transitions": trans, "traces_validated_against_impl": trans,
       "states_by_depth": sp.levels,
@@ -903,8 +970,7 @@ def run(rep, tier, seed):
   t0 = time.time()
   _dbg("start")
   # Nothing here builds reference cycles (conditions, bindings, variables, states and recipes are trees), and
-  # the cyclic collector's full passes over ~10^7 live objects dominate the run otherwise; forked workers
-  # inherit the setting, which also keeps them from touching (copying) the parent's pages.
+  # the cyclic collector's full passes over ~10^7 live objects dominate the run otherwise.
   gc.disable()
   try:
     part1(rep, tier, seed)
@@ -930,12 +996,15 @@ def run(rep, tier, seed):
       "_locals_with_block_condition); private attributes _condition and _locals_with_block_condition are read, "
       "locals through get_locals()",
       "states are constructed only with the public defaults BlockState(locals_[, condition])",
-      "equal canonical key => equal behaviour (argument in the module docstring); store_local is applied to a "
-      "harness-made attribute copy, all other operations to the stored live object",
+      "equal canonical key => equal behaviour (argument in the module docstring); in the parent store_local is "
+      "applied to a harness-made attribute copy and all other operations to the stored live object; workers "
+      "rebuild every state from its history with public operations only and must get the same key and denotation",
+      "with_condition operands are 9 of the 16 depth-1 condition objects (one per shape up to renaming of atoms, "
+      "plus c, TRUE, FALSE); with all 16 the depth-2 level has 2 412 states and depth 3 is out of budget",
       "the block condition of a merge / with_condition result is also compared (or / and), because store_local's "
       "meaning depends on it",
-      "depth 4 (all pairs of depth-3 states) is out of reach; the thorough tier covers depth 3 completely plus one "
-      "more operation on every depth-3 state against the depth<=1 states",
+      "depth 4 (all pairs of depth-3 states, 3.3e10 merges) is out of reach; the thorough tier covers depth 3 "
+      "completely plus one more operation on every depth-3 state (merges against the depth<=1 states only)",
   ]
 
 
